@@ -134,8 +134,13 @@ def validate_trace(module, events, cfg_text=TRACE_CFG, timeout=1500, env=None):
         )
     want = len(events) + NSH
     if not res.ok or res.distinct != want:
+        last = re.findall(r"/\\ l = (\d+)", res.out)
+        line = ""
+        if last and 1 <= int(last[-1]) <= len(events):      # the line TLC was evaluating when it stopped
+            line = "\nfailing line: " + json.dumps(events[int(last[-1]) - 1])[:3000]
         raise MachineryError(
-            f"trace validation did not complete ({module}): rc={res.rc} distinct={res.distinct} want={want}\n{res.errhead}"
+            f"trace validation did not complete ({module}): rc={res.rc} distinct={res.distinct} want={want}\n"
+            f"{res.errhead[:600]}{line}"
         )
     try:
         f.unlink()
